@@ -22,7 +22,7 @@
 (* DynamicConstraintsEncoder for the recorded snapshots.                   *)
 (***************************************************************************)
 EXTENDS Dung, TLC, Sequences, FiniteSets
-CONSTANTS Labels, MaxIds, MaxBuffer, Sem, ReissueRule
+CONSTANTS Labels, MaxIds, MaxBuffer, Sem, ReissueRule, StaleCertificate
 VARIABLES L, E, buffer, snap, ghosts, cache, ok, lastq
 vars == <<L, E, buffer, snap, ghosts, cache, ok, lastq>>
 St == INSTANCE Store WITH s <- L
@@ -74,6 +74,37 @@ ModelSets(x, sn, gh) ==
      ELSE {S \in SUBSET live : \A a \in live : ((a \in S) = (\A b \in sn[a] : P(S, b))) /\ ((a \in S) => ~P(S, a))}
 LabelsOf(x, S) == {l \in DOMAIN x.live : x.live[l] \in S}
 
+(* ---------------- the preferred solver: skeptical queries answered by the search machine of Static.tla ---------------- *)
+(* (run on the shared solver under the current assumptions); what is recorded for later queries: on YES the arguments in   *)
+(* every maximal set seen, on NO the counter-example extension and arguments proved to be missing from some maximal set.   *)
+(* StaleCertificate = TRUE is the pinned design (defect F7): a cached refusal is served with the stored extension even if  *)
+(* that extension contains the argument now asked about.                                                                  *)
+PRQuery(a) ==
+  /\ Sem = "PR" /\ a \in DOMAIN L.live
+  /\ LET hitNo == {c \in 1..Len(cache) : cache[c].kind = "prNo" /\ a \in cache[c].refused /\ (StaleCertificate \/ a \notin cache[c].inModel)}
+         hitYes == {c \in 1..Len(cache) : cache[c].kind = "prYes" /\ a \in cache[c].inModel}
+         ref == SkepIn(Fam(St!AsAF(L), "PR"), {a})
+     IN IF hitYes # {}
+        THEN /\ ok' = (ok /\ ref) /\ lastq' = <<"cached", a, FALSE, TRUE>> /\ UNCHANGED <<L, E, buffer, snap, ghosts, cache>>
+        ELSE IF hitNo # {}
+        THEN LET c == cache[CHOOSE i \in hitNo : \A j \in hitNo : j <= i] IN
+             /\ ok' = (ok /\ ~ref /\ c.inModel \in Fam(St!AsAF(L), "PR") /\ a \notin c.inModel)
+             /\ lastq' = <<"cached", a, FALSE, FALSE>> /\ UNCHANGED <<L, E, buffer, snap, ghosts, cache>>
+        ELSE LET r == Replayed
+                 co == {LabelsOf(r.e, S) : S \in ModelSets(r.e, r.sn, r.gh)}
+                 pr == MaxSubset(co)
+                 counter == {X \in pr : a \notin X}
+                 missingSomewhere == {b \in DOMAIN r.e.live : \E X \in pr : b \notin X}
+             IN /\ E' = r.e /\ snap' = r.sn /\ ghosts' = r.gh /\ buffer' = <<>> /\ UNCHANGED L
+                /\ IF counter = {}
+                   THEN /\ cache' = Append(cache, [kind |-> "prYes", arg |-> a, inModel |-> InterAll(pr, DOMAIN r.e.live), hasExt |-> FALSE, refused |-> {}])
+                        /\ ok' = (ok /\ ref) /\ lastq' = <<"solved", a, FALSE, TRUE>>
+                   ELSE \E X \in counter : \E R \in SUBSET missingSomewhere :
+                        /\ a \in R
+                        /\ cache' = Append(cache, [kind |-> "prNo", arg |-> a, inModel |-> X, hasExt |-> TRUE, refused |-> R])
+                        /\ ok' = (ok /\ ~ref /\ X \in Fam(St!AsAF(L), "PR"))
+                        /\ lastq' = <<"solved", a, FALSE, FALSE>>
+
 (* ---------------- queries ---------------- *)
 Ref(a, cred) == IF cred THEN CredIn(Fam(St!AsAF(L), Sem), {a}) ELSE SkepIn(Fam(St!AsAF(L), Sem), {a})
 CertOK(a, cred, ext) == ext \in Fam(St!AsAF(L), Sem) /\ (IF cred THEN a \in ext ELSE a \notin ext)
@@ -83,7 +114,7 @@ CacheHit(a, cred) ==          \* answers derived from a previous model, reused w
   ELSE {c \in 1..Len(cache) : (cache[c].kind = "skepYes" /\ cache[c].arg = a) \/ (cache[c].hasExt /\ a \notin cache[c].inModel /\ cache[c].kind # "credNo" /\ cache[c].kind # "skepYes")}
 
 Query(a, cred) ==
-  /\ a \in DOMAIN L.live
+  /\ a \in DOMAIN L.live /\ Sem # "PR"
   /\ (cred \/ Sem = "ST")                                  \* the complete solver answers credulous queries only
   /\ IF CacheHit(a, cred) # {}
      THEN LET c == cache[CHOOSE i \in CacheHit(a, cred) : \A j \in CacheHit(a, cred) : j <= i] IN
@@ -96,16 +127,16 @@ Query(a, cred) ==
               want == IF cred THEN {S \in ms : r.e.live[a] \in S} ELSE {S \in ms : r.e.live[a] \notin S}
           IN /\ E' = r.e /\ snap' = r.sn /\ ghosts' = r.gh /\ buffer' = <<>> /\ UNCHANGED L
              /\ \/ /\ want = {}
-                   /\ cache' = Append(cache, [kind |-> IF cred THEN "credNo" ELSE "skepYes", arg |-> a, inModel |-> {}, hasExt |-> FALSE])
+                   /\ cache' = Append(cache, [kind |-> IF cred THEN "credNo" ELSE "skepYes", arg |-> a, inModel |-> {}, hasExt |-> FALSE, refused |-> {}])
                    /\ ok' = (ok /\ (IF cred THEN ~Ref(a, cred) ELSE Ref(a, cred)))
                    /\ lastq' = <<"solved", a, cred, ~cred>>
                 \/ \E S \in want :
                    LET ext == LabelsOf(r.e, S) IN
-                   /\ cache' = Append(cache, [kind |-> "model", arg |-> a, inModel |-> ext, hasExt |-> TRUE])
+                   /\ cache' = Append(cache, [kind |-> "model", arg |-> a, inModel |-> ext, hasExt |-> TRUE, refused |-> {}])
                    /\ ok' = (ok /\ (IF cred THEN Ref(a, cred) ELSE ~Ref(a, cred)) /\ CertOK(a, cred, ext))
                    /\ lastq' = <<"solved", a, cred, cred>>
 
-Next == (\E o \in Ops : Update(o)) \/ (\E a \in Labels : \E cred \in BOOLEAN : Query(a, cred))
+Next == (\E o \in Ops : Update(o)) \/ (\E a \in Labels : \E cred \in BOOLEAN : Query(a, cred)) \/ (\E a \in Labels : PRQuery(a))
 Spec == Init /\ [][Next]_vars
 
 (* ---------------- properties ---------------- *)
@@ -115,6 +146,6 @@ AnswersAndCertificatesCorrect == ok                                          \* 
 SnapshotsCurrent == buffer = <<>> => /\ E = L
                                      /\ DOMAIN snap = St!LiveIds(L)
                                      /\ \A i \in St!LiveIds(L) : snap[i] = AttackersIn(L, i)
-ModelsAreExtensions == buffer = <<>> => {LabelsOf(E, S) : S \in ModelSets(E, snap, ghosts)} = Fam(St!AsAF(L), Sem)
+ModelsAreExtensions == buffer = <<>> => {LabelsOf(E, S) : S \in ModelSets(E, snap, ghosts)} = Fam(St!AsAF(L), IF Sem = "PR" THEN "CO" ELSE Sem)
 CacheOnlyCurrent == \A c \in 1..Len(cache) : cache[c].hasExt => cache[c].inModel \in Fam(St!AsAF(L), Sem)
 =============================================================================
